@@ -188,6 +188,10 @@ def conclude(pid, tier, seed, t0, proof, results, what, failures_fn=None, extra_
         elif len(samples) < 2 and (r.get("lines") or r.get("events")):
             samples.append({"instance": inst, "observations": r.get("lines") or r.get("events")[:6]})
     corr = [(r, r["model_diff"]) for r in results if r.get("model_diff")]
+    # correspondence of the rest of the proof cone (gen/cone.py): the models the cited theorems depend on, compared with
+    # the code on fresh operation histories / walks / tour and rotation-cycle operations
+    from . import cone
+    cone_diffs, cone_counts = cone.cone_correspondence(pid, tier, seed, lib.casedir(pid))
     rc = 0
     lines = []
     seen = set()
@@ -208,6 +212,14 @@ def conclude(pid, tier, seed, t0, proof, results, what, failures_fn=None, extra_
                                 {"property": pid, "kind": "correspondence-broken",
                                  "correspondence": "functional model of Schedule (Schedule.v) vs implementation: " + what,
                                  "first_difference": msg, "instance": r["inst"], "cases_differing": len(corr)})
+        lines.append("VIOLATION property=%s replay=%s no-failing-input-found" % (pid, path))
+        rc = 1
+    if cone_diffs and rc == 0:
+        fam, case, msg = cone_diffs[0]
+        path = lib.write_replay(pid, "cone-%s" % lib.case_hash(case),
+                                {"property": pid, "kind": "correspondence-broken",
+                                 "correspondence": "a model in the cone of this property's theorems differs from the code: " + fam,
+                                 "first_difference": msg, "case": case, "cases_differing": len(cone_diffs)})
         lines.append("VIOLATION property=%s replay=%s no-failing-input-found" % (pid, path))
         rc = 1
     if not proof["ok"]:
@@ -237,6 +249,7 @@ def conclude(pid, tier, seed, t0, proof, results, what, failures_fn=None, extra_
         "traces_validated_against_impl": answered,
         "property_failures_on_impl": len(violations), "known_findings_hit": sorted(seen), "compared": what,
         "correspondence_differences": len(corr),
+        "cone_correspondence_cases": cone_counts, "cone_correspondence_differences": len(cone_diffs),
     }
     if extra_cov:
         cov.update(extra_cov)
@@ -248,7 +261,7 @@ def conclude(pid, tier, seed, t0, proof, results, what, failures_fn=None, extra_
                        time.time() - t0, len(violations))
     for l in lines:
         print(l)
-    print("%s: %d runs %s, %d correspondence differences, %d property failures, %d known; proof %s (%d obligations)"
-          % (pid, len(results), statuses, len(corr), len(violations), len(known), "ok" if proof["ok"] else "BROKEN",
-             proof["obligations"]))
+    print("%s: %d runs %s, %d correspondence differences (+%d in the cone: %s), %d property failures, %d known; proof %s (%d obligations)"
+          % (pid, len(results), statuses, len(corr), len(cone_diffs), cone_counts, len(violations), len(known),
+             "ok" if proof["ok"] else "BROKEN", proof["obligations"]))
     return rc
